@@ -54,7 +54,7 @@ def actualcall_routing_rule(prog, run, rid):
             return lambda *a_: (log.append((name, a_[0] if a_ else None)), ret)[1]
         ev = Evaluator(prog, ac, env={"lastActualFunctionCall_": last, "enabled_": en, "tracing_": tr, "ignoreOtherCalls_": ig, ac.params[0]["name"]: ("str", "f")}, calls={
             "MockExpectedCallsList::hasExpectationWithName": lambda *a_: 0,
-            "MockSupport::appendScopeToName": lambda *a_: ("str", "f"), "MockCheckedActualCall::checkExpectations": h("check", 0), "MockActualCall::checkExpectations": h("check", 0),
+            "MockSupport::appendScopeToName": lambda *a_: ("str", "f"), "MockCheckedActualCall::checkExpectations": h("check", 0),
             "MockSupport::callIsIgnored": lambda *a_: ig, "MockSupport::createActualCall": h("create", 4100), "MockCheckedActualCall::withName": h("withName", 4100),
             "MockIgnoredActualCall::instance": h("ignoredInstance", 1), "MockActualCallTrace::instance": h("traceInstance", 2), "MockActualCallTrace::withName": h("traceWithName", 2)})
         ev.pass_object = True
